@@ -27,8 +27,25 @@ def main():
         print("no patch in", d)
         return 1
     checks = [prop] + [c for c in RELATED.get(prop, []) + extra if c != prop]
+    recheck = os.environ.get("MUT_RECHECK") == "1"
+    prev = None
+    if recheck:
+        # re-run only the listed checks (after the machinery was strengthened); keep the recorded suite confirmation
+        checks = extra or [prop]
+        prev = json.load(open(os.path.join(d, "result.json")))
+        os.environ["MUT_SKIP_SUITE"] = "1"
     subprocess.run([sys.executable, os.path.join(VERIF, "tools", "mutrun.py"), wt, d] + checks)
     res = json.load(open(os.path.join(d, "result.json")))
+    if prev:
+        for k in ("suite_build_rc", "suite_test_rc", "suite_tail", "suite_first_run_rc", "suite_failed_first_run", "suite_seconds"):
+            if k in prev:
+                res[k] = prev[k]
+        merged = dict(prev.get("checks", {}))
+        for c, r in res["checks"].items():
+            if c in merged and merged[c]["rc"] != r["rc"]:
+                r["rc_before_the_check_was_strengthened"] = merged[c]["rc"]
+            merged[c] = r
+        res["checks"] = merged
     ok = (res.get("demo_clean_rc") == 0 and res.get("demo_patched_rc") not in (0, None)
           and res.get("suite_build_rc") == 0 and res.get("suite_test_rc") == 0)
     res["confirmed"] = ok
@@ -42,9 +59,12 @@ def main():
         "demo_on_clean_tree_exit": res.get("demo_clean_rc"), "demo_with_patch_exit": res.get("demo_patched_rc"),
         "repository_suite": "build rc=%s, ctest rc=%s (%s)" % (res.get("suite_build_rc"), res.get("suite_test_rc"), (res.get("suite_tail") or "").strip().splitlines()[0:1]),
         "what_was_run": "tools/mutrun.py: git apply in a scratch worktree of /repo, cmake --build + ctest of the pinned suite, "
-                        "g++ -std=c++17 -O1 demo.cpp (clean and patched), then VERIF_REPO=<worktree> ./check <id> --tier quick for: " + ", ".join(checks),
+                        "g++ -std=c++17 -O1 demo.cpp (clean and patched), then VERIF_REPO=<worktree> ./check <id> --tier quick for: " + ", ".join(sorted(res["checks"])),
     }
-    meta["checks"] = {c: {"exit": r["rc"], "seconds": r["seconds"], "violation_keys": r["violation_keys"][:5]} for c, r in res["checks"].items()}
+    meta["checks"] = {c: dict({"exit": r["rc"], "seconds": r["seconds"], "violation_keys": r["violation_keys"][:5]},
+                              **({"exit_before_the_check_was_strengthened": r["rc_before_the_check_was_strengthened"]}
+                                 if "rc_before_the_check_was_strengthened" in r else {}))
+                      for c, r in res["checks"].items()}
     meta["caught_by"] = [c for c, r in res["checks"].items() if r["rc"] == 1]
     json.dump(res, open(os.path.join(d, "result.json"), "w"), indent=1)
     if ok:
